@@ -411,6 +411,13 @@ package ion
 //@ ensures bsStream(b)
 //@ ensures err == nil ==> bsLocal(b) && bsConsumed(b, old(b.pos), old(bsS(b).cur), old(b.len))
 
+//@ func (*bitstream).ReadAnnotations
+//@ trusted assumed for callers until the annotation wrapper decoding is under contract: on success the stream stands before the enclosed value
+//@ requires bsLocal(b) && bsOn(b, bitcodeAnnotation) && symbolTable != nil
+//@ modifies b.pos, b.state, b.code, b.null, b.len, vcStreamOf(b.in).cur
+//@ ensures bsStream(b)
+//@ ensures err == nil ==> bsLocal(b) && b.state == bssBeforeValue && bsCleared(b)
+
 //@ func (*bitstream).ReadBVM
 //@ split returns
 //@ requires bsLocal(b) && bsOn(b, bitcodeBVM)
@@ -664,4 +671,11 @@ package ion
 //@ func (*lst).MaxID
 //@ modifies nothing
 //@ ensures[C09] result == t.maxImportID+uint64(len(t.symbols))
+//@ safe[C06]
+
+//@ func (*binaryReader).readAnnotations
+//@ split returns
+//@ requires brLocal(r) && r.lst != nil && bsOn(&r.bits, bitcodeAnnotation)
+//@ modifies r.annotations, r.bits.pos, r.bits.state, r.bits.code, r.bits.null, r.bits.len, vcStreamOf(r.bits.in).cur
+//@ ensures[C03,C06] err == nil ==> brLocal(r) && r.bits.state == bssBeforeValue
 //@ safe[C06]
